@@ -13,7 +13,7 @@ def build(ctx):
 def run(ctx):
     exe = build(ctx)["h_writer"]
     th = ctx.tier == "thorough"
-    ctx.fan(exe, "c08", 60000 if th else 2000, timeout=120)
+    ctx.fan(exe, "c08", 60000 if th else 5000, timeout=120)
     ctx.fan(exe, "c08pre", 400 if th else 40, timeout=60)
     s = ctx.stats
     adds = sum(v for k, v in s.items() if k.startswith("c08.adds."))
@@ -25,7 +25,7 @@ def run(ctx):
              "every return value compared with the model, finished file (decoder + reader + count_entries) compared with the accepted subsequence; plus mtbl_writer_init on 6 kinds of pre-existing target; "
              "distinct_nontrivial = distinct sequences",
         evaluations=adds,
-        floors={"c08.sequences": 1500, "c08.adds.refused.equal": 2000, "c08.adds.refused.proper-prefix": 2000, "c08.adds.refused.sign-trap-down(0x80->0x7f)": 300,
+        floors={"c08.sequences": 4000, "c08.adds.refused.equal": 2000, "c08.adds.refused.proper-prefix": 2000, "c08.adds.refused.sign-trap-down(0x80->0x7f)": 300,
                 "c08.adds.accepted.sign-trap-up(0x7f->0x80)": 300, "c08.adds.accepted.first-empty-key": 100, "c08.multi_block_files": 500,
                 "c08pre.targets.regular-file": 20, "c08pre.targets.dangling-symlink": 20, "c08pre.targets.directory": 20, "c08pre.targets.symlink-to-file": 20},
         extra={"adds": adds, "refused_adds": refused})
